@@ -13,6 +13,7 @@
     of a run (static summaries are C08); [Targets] is a table target-id -> level (directive matching is
     C11); user closures are Gallina functions; metadata is (callsite id, level, target id, kind). *)
 From Coq Require Import NArith List Bool.
+From TVGen Require Import Gen_stack.
 Import ListNotations.
 Local Open Scope N_scope.
 
@@ -184,6 +185,7 @@ Inductive pcall :=          (* calls arriving at the outermost Collect (the harn
 | PClose (id : N).                  (* try_close on the outermost collector answered true *)
 Inductive obs :=
 | ODeliver (layer : N) (w : what) (cur : option N) (scope : list N) (parent : option N)
+           (nav : list (option N * list N))   (* for every span the scope yields: its .parent() and its .scope() *)
 | OFEval (k : N) (r : bool)                 (* Filtered #k evaluated its filter's `enabled` *)
 | OCall (p : pcall)
 | OResult (r : bool).                       (* value of an enabled! probe *)
@@ -253,7 +255,9 @@ Definition span_parent (st : state) (mask : N) (r : option N) : option N :=
     of the span the callback is about, and that span's parent() *)
 Definition record (name : N) (st : state) (mask : N) (w : what) : obs :=
   let r := span_ref st mask w in
-  ODeliver name w (lookup_current st mask) (scope_from (fuel_of st) st mask r) (span_parent st mask r).
+  let sc := scope_from (fuel_of st) st mask r in
+  ODeliver name w (lookup_current st mask) sc (span_parent st mask r)
+           (map (fun id => (span_parent st mask (Some id), scope_from (fuel_of st) st mask (Some id))) sc).
 
 (** * One pass over a layer tree.  [cm] is the FilterId of the Context handed down. *)
 Definition seq_all {A} (f : A -> N -> bool * N * list obs) : list A -> N -> bool * N * list obs :=
@@ -394,7 +398,7 @@ Section Collector.
     match c with
     | Registry => if haspsf then (match p with Some i => i | None => IAlways end, None) else (IAlways, p)
     | With l c' =>
-        let '(oi, p1) := l_register (is_registry c') l m p in
+        let '(oi, p1) := l_register (is_registry c' && pair_sees_registry) l m p in
         pick_interest (psf l) (coll_psf c' || is_registry c') oi (c_register c' m) p1
     end.
 
